@@ -178,6 +178,12 @@ def get_func(frame: FrameType) -> Optional[Callable[..., Any]]:
 
 RETURN_VALUE_OPCODE = opcode.opmap["RETURN_VALUE"]
 YIELD_VALUE_OPCODE = opcode.opmap["YIELD_VALUE"]
+# Python 3.12+ compiles `return <constant>` (including the implicit `return None`) to RETURN_CONST
+RETURN_OPCODES = {
+    opcode.opmap[name]
+    for name in ("RETURN_VALUE", "RETURN_CONST")
+    if name in opcode.opmap
+}
 
 # A CodeFilter is a predicate that decides whether or not a the call for the
 # supplied code object should be traced.
@@ -258,7 +264,7 @@ class CallTracer:
         elif last_opcode == YIELD_VALUE_OPCODE:
             trace.add_yield_type(typ)
         else:
-            if last_opcode == RETURN_VALUE_OPCODE:
+            if last_opcode in RETURN_OPCODES:
                 trace.return_type = typ
             del self.traces[frame]
             self.logger.log(trace)
